@@ -822,7 +822,9 @@ def prog_env(inp):
 
 def prog_argv(inp, d=None):
     d = d or inp["dir"]
-    a = ["--color", "never"]
+    a = ["--color", "always" if inp.get("colour") else "never"]
+    if inp.get("jout") is not None:
+        a += ["--journal-output", JOURNAL_OUTPUTS[inp["jout"]]]
     if inp["fmode"]:
         a.append(inp["fmode"])
     if inp["align"]:
@@ -876,7 +878,7 @@ def prog_names(inp, d=None):
 def prog_expected(inp, d=None):
     """independent python rendering: (stdout bytes, summary numbers, print order [(src, pos)]);
     (None, None, None) for an invocation with sources of other kinds than year-bearing text"""
-    if any(s.get("kind") in ("yearless", "records", "journal", "evtx") for s in inp["sources"]):
+    if inp.get("colour") or any(s.get("kind") in ("yearless", "records", "journal", "evtx") for s in inp["sources"]):
         return None, None, None
     vis = [[(pos, m) for pos, m in enumerate(s["msgs"]) if prog_in_window(inp, m["inst"])] for s in inp["sources"]]
     order = kway_merge([[m["inst"] for _, m in v] for v in vis])
@@ -931,13 +933,16 @@ def prog_coq_case(inp, stdout, nums):
     """Corr/C01p.spec_case"""
     on, fmt, off = prog_date(inp)
     names = prog_names(inp)
-    o = "(%s, %s, \"%s\", %s, \"%s\", (%d)%%Z, \"%s\", %s, %s, %s)" % (
+    joff = inp["zone"][1] if (inp["zone"] and inp["zone"][0] == "-l") else 0       # fallback zone = local zone (TZ)
+    o = "(%s, %s, \"%s\", %s, \"%s\", (%d)%%Z, \"%s\", %s, %s, %s, (%s, %d, (%d)%%Z))" % (
         "true" if inp["fmode"] else "false", "true" if inp["align"] else "false", inp["psep"].encode().hex(),
         "true" if on else "false", (fmt or "").encode().hex(), off, inp["sep"][1].hex(),
-        "true" if inp["summary"] else "false", coq_optz(inp["lo"]), coq_optz(inp["hi"]))
+        "true" if inp["summary"] else "false", coq_optz(inp["lo"]), coq_optz(inp["hi"]),
+        "true" if inp.get("colour") else "false", inp.get("jout") or 0, joff)
     fs = []
     tab = {}
     ytab = {}
+    stab = {}
     for i, s in enumerate(inp["sources"]):
         nb = names[i].encode()
         kind = s.get("kind")
@@ -959,7 +964,9 @@ def prog_coq_case(inp, stdout, nums):
             ck = "(CEvtx [%s])" % "; ".join(rs)
             data = b""
         elif kind == "journal":
-            es = ["((%d)%%Z, (%d)%%Z, %s)" % (t // 1000, t, hexchunks(text)) for (t, text) in (s.get("msgs_probe") or [])]
+            es = ["((%d)%%Z, \"%s\", %s, [%s])" % (t, cur.hex(), "None" if mono is None else "(Some %d)" % mono,
+                                                  "; ".join("(\"%s\", \"%s\")" % (k.hex(), v.hex()) for k, v in pairs))
+                  for (t, cur, mono, pairs) in (s.get("entries") or [])]
             ck = "(CJournal [%s])" % "; ".join(es)
             data = b""
         else:
@@ -967,11 +974,13 @@ def prog_coq_case(inp, stdout, nums):
                 ln = m["lines"][0].encode()
                 whole = pos == len(s["msgs"]) - 1 and len(m["lines"]) == 1 and not s["final_nl"]
                 tab[ln if whole else ln + b"\n"] = m["inst"]
+                stab[ln if whole else ln + b"\n"] = (0, len(render_ts(m["inst"], m["off"], m.get("frac", 6))))
         fs.append("(\"%s\", %d, %d, %s, %s, %s)" % (nb.hex(), len(names[i]), len(names[i]),
                                                      "true" if s["container"] == "gz" else "false", hexchunks(data), ck))
     ytabs = "[" + "; ".join("(\"%s\", ((%d)%%Z, (%d)%%Z, (%d)%%Z))" % ((k.hex(),) + v) for k, v in ytab.items()) + "]"
     tabs = "[" + "; ".join("(\"%s\", (%d)%%Z)" % (k.hex(), v) for k, v in tab.items()) + "]"
-    return "(%s, [%s], %s, %s, %d, %s, [%s])" % (o, "; ".join(fs), tabs, ytabs, inp["bs"] or 65536, hexchunks(stdout),
+    stabs = "[" + "; ".join("(\"%s\", (%d, %d))" % (k.hex(), v[0], v[1]) for k, v in stab.items()) + "]" if inp.get("colour") else "[]"
+    return "(%s, [%s], %s, %s, %s, %d, %s, [%s])" % (o, "; ".join(fs), tabs, ytabs, stabs, inp["bs"] or 65536, hexchunks(stdout),
                                             "; ".join("(%d)%%Z" % x for x in (nums or [])))
 
 
@@ -1032,7 +1041,7 @@ def prog_save_failure(prop, seed, inp, plan, n, extra=None):
     if extra and "expected_stdout_bytes" in extra:
         extra = {k: v for k, v in extra.items() if k != "expected_stdout_bytes"}
     c = dict(dir=dest, argv=prog_argv(inp, ind), plan=plan, env=prog_env(inp), describe=prog_describe(inp),
-             expect_summary=(nums if inp["summary"] else None), whole_invocation=True)
+             expect_summary=(nums if inp["summary"] else None), whole_invocation=True, colour=bool(inp.get("colour")))
     if extra:
         c.update(extra)
     return c
@@ -1049,6 +1058,9 @@ def prog_replay_one(c):
         print("replay whole invocation rc=%d: no expected stdout recorded (mixed source kinds: evaluate Corr/C01p.spec_bad on the case); argv=%s" % (rc, " ".join(c["argv"])))
         return rc != 0
     expb = open(pe, "rb").read()
+    if c.get("colour"):                # expected bytes are the specification's with SGR groups abstracted (ESC + class digit)
+        import print_util
+        out = print_util.abstract_sgr(out) or b""
     same = rc == 0 and out == expb
     what = "stdout %s expected (%d vs %d bytes)" % ("==" if same else "!=", len(out), len(expb))
     if same and c.get("expect_summary"):
@@ -1069,6 +1081,44 @@ def prog_replay_one(c):
 #   evtx      the evtx fixture, always with a window that selects at most a dozen events
 # The python rendering is not used for these invocations (prog_expected returns None): the verdict is
 # Program.program_spec / program_m evaluated by coqc.
+JOURNAL_OUTPUTS = ["short", "short-precise", "short-iso", "short-iso-precise", "short-full", "short-monotonic", "short-unix",
+                   "verbose", "export", "cat"]          # order of JournalRender.all_outputs
+_JREAD = {}
+
+
+def journal_entries(path, scratch):
+    """the entries of a journal fixture as libsystemd enumerates them (checks/c09.sd_read on the
+    decompressed file): [(receive time us, cursor, monotonic | None, [(key, value)])]"""
+    if path in _JREAD:
+        return _JREAD[path]
+    import c09, bz2
+    raw = path
+    if not path.endswith(".journal"):
+        ext = path.rsplit(".", 1)[1]
+        data = open(path, "rb").read()
+        try:
+            data = {"gz": gzip.decompress, "bz2": bz2.decompress, "xz": lzma.decompress}[ext](data)
+        except KeyError:
+            _JREAD[path] = None
+            return None
+        os.makedirs(os.path.join(scratch, "_journal"), exist_ok=True)
+        raw = os.path.join(scratch, "_journal", os.path.basename(path)[:-len(ext) - 1])
+        with open(raw, "wb") as f:
+            f.write(data)
+    try:
+        ents = []
+        for (t, cur, mono, objs) in c09.sd_read(raw):
+            pairs = []
+            for d in objs:
+                k, _, v = d.partition(b"=")
+                pairs.append((k, v))
+            ents.append((t, cur, mono, pairs))
+    except OSError:
+        ents = None
+    _JREAD[path] = ents
+    return ents
+
+
 MONTHS = ["Jan", "Feb", "Mar", "Apr", "May", "Jun", "Jul", "Aug", "Sep", "Oct", "Nov", "Dec"]
 RECORD_LAYOUTS = [("Fs_Linux_x86_Utmpx", ["wtmp", "utmp", "btmp", "utmpx"]), ("Fs_Linux_x86_Lastlog", ["lastlog"])]
 _PROBE = {}
@@ -1163,7 +1213,7 @@ def prog_input_mixed(rng, idx, scratch):
         elif r < 0.65:
             extra.append(yearless_source(rng, nsid, off_s))
         elif r < 0.8 and "journal" in fams:
-            p = rng.choice(fams["journal"])
+            p = rng.choice([x for x in fams["journal"] if x.rsplit(".", 1)[1] in ("gz", "bz2", "xz", "journal")] or fams["journal"])
             extra.append(dict(sid=nsid, kind="journal", container="fixture", msgs=[], path=p, name=os.path.basename(p)))
         elif r < 0.9 and "evtx" in fams:
             p = rng.choice(fams["evtx"])
@@ -1199,6 +1249,9 @@ def prog_input_mixed(rng, idx, scratch):
                     f.write(data)
             os.utime(os.path.join(d, s["name"]), (s["mtime"], s["mtime"]))
             s["relname"] = s["name"]
+        elif s["kind"] == "journal":
+            s["entries"] = journal_entries(s["path"], scratch)
+            s["relname"] = None
         else:
             s["msgs_probe"] = probe_fixture(s["path"], prog_env(inp)["TZ"])
             s["relname"] = None
@@ -1207,6 +1260,7 @@ def prog_input_mixed(rng, idx, scratch):
     rng.shuffle(allsrc)
     inp["sources"] = allsrc
     inp["mixed"] = True
+    inp["jout"] = rng.randrange(len(JOURNAL_OUTPUTS)) if any(s["kind"] == "journal" for s in allsrc) else None
     # the window: around the instants of generated sources; an event log is always windowed to few events
     ev = [s for s in allsrc if s["kind"] == "evtx" and s.get("msgs_probe")]
     if ev:
